@@ -71,6 +71,25 @@ def cases_for(tier, seed):
                 body.append(cluster.client_op(node, nodes, rnd.choice(DATA_OPS)))
         cases.append(build_case("r%d" % i, nodes, body, seed + i, "random",
                                 strategy=rnd.choice(["none", "none", "newer"])))
+    # keys written by a snapshot on every node, then removes (tombstones), repeated removes, writes and increments
+    # on top of the tombstones, at arbitrary nodes
+    pops = [{"op": "remove", "k": "k1"}, {"op": "remove", "k": "k2"}, {"op": "set", "k": "k1", "v": "again"},
+            {"op": "set-safe", "k": "k1", "v": "sv2", "ver": 2}, {"op": "set-safe", "k": "k1", "v": "sv3", "ver": 3},
+            {"op": "increment", "k": "k2", "n": 4}, {"op": "set-safe", "k": "k1", "v": "sv1", "ver": 1}]
+    for i in range(140 if tier == "quick" else 1500):
+        nodes = rnd.choice([["n1", "n2"], ["n1", "n2", "n3"]])
+        body = [cluster.client_op(nodes[0], nodes, DATA_OPS[0]), cluster.client_op(nodes[0], nodes, DATA_OPS[1]),
+                cluster.client_op(nodes[0], nodes, {"op": "snapshot", "reclaim": False, "names": ["d"]}, c="a")]
+        body += [{"node": x, "tick": x, "line": "<declutter %s>" % x, "op": {"op": "tick"}} for x in nodes]
+        first = rnd.choice(pops[:2])
+        body.append(cluster.client_op(rnd.choice(nodes), nodes, first))
+        for _ in range(rnd.randint(1, 4)):
+            body.append(cluster.client_op(rnd.choice(nodes), nodes, first if rnd.random() < 0.35 else rnd.choice(pops)))
+        if rnd.random() < 0.3:
+            body.append(cluster.client_op(nodes[0], nodes, {"op": "snapshot", "reclaim": False, "names": ["d"]}, c="a"))
+            body += [{"node": x, "tick": x, "line": "<declutter %s>" % x, "op": {"op": "tick"}} for x in nodes]
+            body.append(cluster.client_op(rnd.choice(nodes), nodes, rnd.choice(pops)))
+        cases.append(build_case("t%d" % i, nodes, body, seed + i, "random", strategy=rnd.choice(["none", "none", "newer"])))
     # two concurrent clients on the primary, deliveries interleaved with the commands
     for i in range(120 if tier == "quick" else 1500):
         nodes = rnd.choice([["n1", "n2"], ["n1", "n2", "n3"]])
@@ -111,6 +130,18 @@ def model_scenarios(tier):
             for na, nb in ((nodes[0], nodes[0]), (nodes[0], nodes[-1]), (nodes[-1], nodes[0])):
                 two.append(nuncluster.Scenario("p%d" % n, nodes, {"k": ("v0", 1), "c": ("5", 0)},
                                                [dict(MODEL_OPS[a], node=na), dict(MODEL_OPS[b], node=nb)]))
+                n += 1
+    # keys that a snapshot has written: a remove leaves a tombstone (version advanced) instead of dropping the entry,
+    # later removes / writes / increments are judged against it on every node
+    def persisted(nodes):
+        return [{"node": nodes[0], "op": "snapshot", "k": "", "v": ""}] + [{"node": x, "op": "tick", "k": "", "v": ""} for x in nodes]
+    tails = [[4, 4], [4, 0], [4, 1], [4, 2], [4, 3], [4, 4, 1], [3, 4, 5]]
+    for nodes in (["n1", "n2"], ["n1", "n2", "n3"]):
+        for t in tails:
+            for node in (nodes[0], nodes[-1]):
+                two.append(nuncluster.Scenario("t%d" % n, nodes, {"k": ("v0", 1), "c": ("5", 0)},
+                                               persisted(nodes) + [dict(MODEL_OPS[i], node=(node if j % 2 == 0 else nodes[0]))
+                                                                   for j, i in enumerate(t)]))
                 n += 1
     return one, two
 
